@@ -230,7 +230,11 @@ def shard_extra(tier, seed, shard, nshards, tally, deadline):
 
 
 MANIFEST = {
-    'text': ('Generated search over (DAG, failing subset incl. malformed returns, worker count, schedules) on '
+    'text': ('Graphs may contain nested graph nodes (groups), generated insertion order, back-end reuse after '
+             'another graph over the same names; malformed returns include falsy non-mappings; 12/250 cases per '
+             'shard are also run on real threads in a child process and compared with the same model '
+             '(disagreements count only when reproduced under the controlled scheduler). '
+             'Generated search over (DAG, failing subset incl. malformed returns, worker count, schedules) on '
              'the real back-end under the controlled scheduler; the final status map and execution counters '
              'of every run are compared with a reference model that has no schedule input, and with each '
              'other across 3 schedules / 2 worker counts per graph; all schedules with <= 1 (quick) or <= 2 '
